@@ -19,4 +19,15 @@ def run(ctx):
         plans.append({"world": "valsets", "sim": 20, "steps": 9, "avoid": True, "crash": True, "cap": 3000, "seeds": 2})
         plans.append({"world": "adversarial", "sim": 10, "steps": 8, "avoid": True, "crash": True, "cap": 2000, "seeds": 1})
     design = [("Mirror_c10.cfg", {"MaxSteps": 4 if q else 5, "AllowCrash": "TRUE"}, "C10_RestartOK (action property), C04_Chain across crashes")]
-    return mirrorcheck.run(ctx, {"C10"}, plans, design_cfgs=design)
+    cov, mismatches, inconcl = mirrorcheck.collect(ctx, {"C10"}, plans, design_cfgs=design)
+    # the state machine half of a restart: StateMachine.tla with crashes after every macro step (edge cover + simulation),
+    # replayed on the real state machine: it resumes at the position its stores record and not behind it
+    import smcheck
+    sm_plans = [{"cover": True, "universe": "Small", "steps": 4 if q else 5, "crash": True, "rich": True, "cap": 5000 if q else 40000},
+                {"universe": "Small", "rich": False, "sim": 10 if q else 80, "steps": 9 if q else 11, "crash": True, "cap": 200 if q else 3000, "seeds": 1 if q else 2}]
+    scov, smis, sinc = smcheck.collect(ctx, {"C10"}, sm_plans, [])
+    cov["state_machine_restart"] = scov
+    cov["behaviours_replayed_on_real_code"] += scov["behaviours_replayed_on_real_code"]
+    cov["evaluations"] += scov["evaluations"]
+    rc = ctx.finish("model_checking", extra_cov=cov)
+    return mirrorcheck.conclude(rc, mismatches + smis, inconcl + sinc)
